@@ -11,6 +11,9 @@ CLAIMS = {
             "Held on every monitored execution of a seeded matrix (12 dtypes x 9 interval configurations x 4 stretches x value families incl. NaN/inf/ties/wide ranges, all presets, 6 stretch classes with inverses); range, monotonicity, limit and masking predicates are evaluated on the data, on the limits and on a probe grid reaching beyond the limits.",
             "Finite sampling; float32 inputs judged at 2e-4 (working precision), others at 1e-9; limits judged only when vmin<vmax.", "DESIGN.md §3 C20"),
 }
+CLAIMS["C02"] = ("exploration", "differential runtime oracle: independent float64 multislice/mixed-state simulator vs the library's own preprocessing + forward pipeline (public reconstruct() with lr=0 and the explicit forward chain with autograd)",
+    "Held on every monitored scene: data simulated by an independent numpy simulator from unit-amplitude truths are reproduced by the library's pipeline at the truth (all four losses ~ rounding noise, 1e-6..1e-3 of the loss at a 5% perturbation; predicted patterns equal simulated ones to 2e-5; l2 gradients at the truth <= 1e-3 of those at the perturbations) over object types, 1-4 slices, 1-3 modes, odd/even/non-square ROI, fractional raster scans, padding, batch sizes, detector masks, no_shift (incl. the learned-descan target path) and constant descan with integer detector rolls.",
+    "Finite sampling of scenes; constant descan judged only on scenes whose mean centre of mass is an integer (premise measured by the harness); float32 pipeline vs float64 reference, thresholds >= 18x above the measured noise floor and >= 1e3x below the effect of the seeded mutants.", "DESIGN.md §3 C02")
 ALL = ["C%02d" % i for i in range(1, 21)]
 PENDING_REASON = "check not built yet (work in progress; runtime-monitoring design exists in DESIGN.md §3)"
 
